@@ -12,6 +12,5 @@ CONSTANTS Proc <- MCProc
           MaxClock = 2
           TagSet = {0, 1}
           GetKinds = {"Get", "GetNoWait", "GetTimeout"}
-INVARIANTS SwallowOnlyNil TypeOK Fifo Conservation RefusalInert PerProducerOrder WaitingImpliesEmpty
-PROPERTIES AllStepProps
+INVARIANTS NoSwallowEver
 CHECK_DEADLOCK FALSE
